@@ -65,10 +65,9 @@ Definition all_labs : list lab :=
 Lemma all_labs_complete l : In l all_labs.
 Proof. destruct l as [h| |u| | | | |g|g| | | |u| |b| |]; try destruct h; try destruct u; try destruct g; try destruct b; simpl; tauto. Qed.
 
-Definition all_ords : list N := [0; 1; 2; 3; 4; 5].
 
 Definition succs (s : state) : list state :=
-  flat_map (fun lb => flat_map (fun ord => [fst (step_ret_m cfg_now true s (lb, ord)); fst (step_ret_m cfg_now false s (lb, ord))]) all_ords) all_labs.
+  flat_map (fun lb => flat_map (fun ord => [fst (step_ret_m cfg_now true s (lb, ord)); fst (step_ret_m cfg_now false s (lb, ord))]) (orders s)) all_labs.
 
 (* hashed set of states *)
 Definition bit (b : bool) : N := if b then 1 else 0.
